@@ -31,7 +31,7 @@ inductive UidMode where
 /-- one `next()` of job `j`'s generator: its next frame, observed at time `t`, with features `dsts` -/
 inductive Op where
   | frame (j : Nat) (t : Int) (dsts : List Pos)
-  deriving Repr
+  deriving Repr, DecidableEq
 
 def Op.job : Op → Nat
   | .frame j _ _ => j
